@@ -18,10 +18,20 @@ var c12Alphabet = DefaultAlphabetWith(
 	[]kwOpt{{"pattern", "["}, {"required", []any{"a", "a"}}, {"required", []any{"a", "b", "a"}}},
 ).withAppls([]applForm{{"properties", "propA-ro"}, {"properties", "propA-wo"}, {"properties", "propAB-ro"}, {"properties", "propEsc"}})
 
+var c12Combined = []any{
+	m("uniqueItems", true, "items", m("minLength", 2.0)),
+	m("uniqueItems", true, "items", m("type", "integer"), "maxItems", 2.0),
+	m("uniqueItems", true, "minItems", 4.0, "items", m("enum", l("ab", 1.0))),
+	m("required", l("a", "b"), "properties", m("a", m("minLength", 2.0), "b", m("type", "integer")), "additionalProperties", false),
+	m("minProperties", 3.0, "additionalProperties", m("type", "string", "maxLength", 1.0)),
+}
+
 func c12Values(size int) []any {
 	vs := ValueSet(size)
 	vs = append(vs, "2020-01-02", "2020-13-02", "2020-01-02T03:04:05Z", "!!", 4294967296.0, -4294967296.0,
 		map[string]any{"a": "2020-01-02"}, []any{"2020-13-02"}, []any{4294967296.0, "a"})
+	// three items, a duplicate pair ahead of a distinct one (positions after a removed duplicate must still be right)
+	vs = append(vs, []any{"ab", "ab", "a"}, []any{1.0, 1.0, 1.5}, []any{"a", "ab", "ab", ""}, []any{[]any{1.0}, []any{1.0}, 1.0})
 	// a property whose name needs escaping in a JSON pointer (RFC 6901: "/" is "~1", "~" is "~0")
 	for _, v := range []any{nil, true, 1.0, 1.5, "a", "ab"} {
 		vs = append(vs, map[string]any{"s/l~t": v})
@@ -299,7 +309,7 @@ func init() {
 	core.Register(&core.Check{
 		ID: "C12",
 		Rule: "family 0: every schema with <=B keyword instances of the C01 alphabet extended with format (date, date-time, byte, int32, unknown) and an uncompilable pattern, x the C01 value list plus format probes; " +
-			"family 1: six discriminator schemas (oneOf of two component refs, with and without mapping, bare and nested under properties/items/allOf) x 48 values. Each (schema,value) is run in default mode, " +
+			"family 2: five fixed schemas in which two or three keywords report on the same array or object (uniqueItems + items + a length bound; required + properties + additionalProperties); family 1: six discriminator schemas (oneOf of two component refs, with and without mapping, bare and nested under properties/items/allOf) x 48 values. Each (schema,value) is run in default mode, " +
 			"the 11 combinations of FailFast/MultiErrors/message customiser, IsMatching and the typed IsMatching helper, and within each of six further readings (request, response, formats enabled, patterns disabled, request without the readOnly check, response without the writeOnly check) the FailFast/MultiErrors combinations against that reading's own default; non-trivial = the default verdict is reject (an error exists whose pointer and value are checked) or >=1 keyword",
 		Assumptions: []string{
 			"no reference evaluator: the default-mode verdict is the yardstick for the other modes",
@@ -325,12 +335,19 @@ func init() {
 		},
 		Body: func(r *core.Run, x *explore.X) {
 			budget, depth, vs := c12Budget(r.Tier)
-			family := x.Choose(2)
+			family := x.Choose(3)
 			var raw map[string]any
 			var s *openapi3.Schema
 			var sj string
 			var vals []any
-			if family == 0 {
+			if family == 2 {
+				// a few schemas of three and four keyword instances in which two keywords report on the same collection
+				// (the quick budget of two cannot combine them): judged like family 0
+				raw = cloneJSON(explore.Pick(x, c12Combined)).(map[string]any)
+				sj = CanonJSON(raw)
+				vals = c12Values(vs)
+				family = 0
+			} else if family == 0 {
 				b := budget
 				raw = c12Alphabet.Gen(x, &b, depth)
 				sj = CanonJSON(raw)
